@@ -26,9 +26,12 @@ func c12Embeddings(name string, isFunc bool) []string {
 		if strings.EqualFold(name, "hashFiles") {
 			call, up = name+"('x')", strings.ToUpper(name)+"('x')"
 		}
-		return []string{"${{ " + call + " }}", "${{ " + up + " }}", "${{ true && " + call + " }}", "${{ toJSON(" + call + ") }}"}
+		return []string{"${{ " + call + " }}", "${{ " + up + " }}", "${{ true && " + call + " }}", "${{ toJSON(" + call + ") }}",
+			// after another placeholder / another operand that is fine everywhere
+			"${{ 1 }} x ${{ " + call + " }}", "${{ 'a' == 'b' || " + call + " }}"}
 	}
-	return []string{"${{ " + name + " }}", "${{ " + strings.ToUpper(name) + ".zz }}", "${{ 'a' && " + name + ".yy }}", "${{ toJSON(" + name + ") }}"}
+	return []string{"${{ " + name + " }}", "${{ " + strings.ToUpper(name) + ".zz }}", "${{ 'a' && " + name + ".yy }}", "${{ toJSON(" + name + ") }}",
+		"${{ 1 }} x ${{ " + name + ".q }}", "${{ format('{0}{1}', 1, " + name + ") }}"}
 }
 
 func c12Allowed(avail, name string, isFunc bool) bool {
@@ -73,6 +76,11 @@ func c12Verdict(r *vReport, errs []*Error, rp map[string]any) {
 		if d.Line != line || d.Col < lo || d.Col > hi {
 			continue
 		}
+		if d.Kind == "syntax-check" && c12TwoPlaceholders(rp) {
+			// a field that takes exactly one expression (or a section given by one expression)
+			// rejects a text with two placeholders as a whole: nothing is evaluated, nothing is claimed
+			return
+		}
 		if isFunc {
 			if m := c12FnRe.FindStringSubmatch(d.Msg); m != nil && strings.EqualFold(m[1], name) {
 				reported = true
@@ -107,7 +115,7 @@ func c12Verdict(r *vReport, errs []*Error, rp map[string]any) {
 func TestVerifC12(t *testing.T) {
 	r := vNewReport("C12")
 	defer r.Write(t)
-	r.Extra["rule"] = "every non-exempt scalar value position of the 4 maximal seeds (its table key given by the documentation-derived schema) x 12 contexts + 5 special functions x 4 embeddings (bare, upper-cased, nested in &&, call argument; for if: keys also without the ${{ }} marker), complete product; oracle = transcription of GitHub's context availability table; class = (table key, name, allowed?); non-trivial = not allowed"
+	r.Extra["rule"] = "every non-exempt scalar value position of the 4 maximal seeds (its table key given by the documentation-derived schema) x 12 contexts + 5 special functions x 6 embeddings (bare, upper-cased, nested in &&, call argument, after another placeholder, second call argument; for if: keys also without the ${{ }} marker), complete product; oracle = transcription of GitHub's context availability table; class = (table key, name, allowed?); non-trivial = not allowed"
 	r.Extra["assumptions"] = []string{"the availability table is the transcription frozen in lib_catalogue.go (appendix E)", "for the jobs context outside workflow_call outputs 'undefined variable' counts as the report"}
 	if raw := vReplayInput(); raw != nil {
 		var rp map[string]any
@@ -156,7 +164,11 @@ func TestVerifC12(t *testing.T) {
 				if strings.HasSuffix(p.Path, ".if") {
 					// if: conditions may omit the ${{ }} marker
 					for _, t := range c12Embeddings(n.name, n.isFunc) {
-						embs = append(embs, strings.TrimSuffix(strings.TrimPrefix(t, "${{ "), " }}"))
+						bare := strings.TrimSuffix(strings.TrimPrefix(t, "${{ "), " }}")
+						if strings.Contains(bare, "}}") {
+							continue // only single-placeholder embeddings have a bare form
+						}
+						embs = append(embs, bare)
 					}
 				}
 				for e, text := range embs {
@@ -187,5 +199,12 @@ func TestVerifC12(t *testing.T) {
 	r.Bounds["table_keys"] = len(vAvailability)
 	r.Bounds["contexts"] = len(vCtxAll)
 	r.Bounds["special_functions"] = len(vSpecialFuncs)
-	r.Bounds["embeddings"] = 4
+	r.Bounds["embeddings"] = 6
+}
+
+// c12TwoPlaceholders reports whether the mutated scalar of the replay payload holds two placeholders.
+func c12TwoPlaceholders(rp map[string]any) bool {
+	lines := strings.Split(rp["src"].(string), "\n")
+	l := vInt(rp["line"])
+	return l >= 1 && l <= len(lines) && strings.Count(lines[l-1], "${{") >= 2
 }
